@@ -114,11 +114,11 @@ def ensure_built(clean=False):
                     os.unlink(os.path.join(COQ, fn))
                 except OSError:
                     pass
-        # the application-facing methods of hpfeeds/asyncio/client.py -> coq/AioGen.v (C11, C12); same fail-closed rule
+        # the synchronous methods of hpfeeds/asyncio/client.py and hpfeeds/twisted/service.py -> coq/AioGen.v (C11-C13); same fail-closed rule
         rc6, out6, err6, _ = _run(['/venv/bin/python', os.path.join(VERIF, 'harness', 'pytrans6.py')], timeout=120)
         if rc6 != 0:
             trans_note += ' pytrans6 failed: ' + (out6 + err6)[-600:]
-            for fn in ('AioGen.v', 'AioGen.vo', 'AioGenEq.vo'):
+            for fn in ('AioGen.v', 'AioGen.vo', 'AioGenEq.vo', 'TwGenEq.vo'):
                 try:
                     os.unlink(os.path.join(COQ, fn))
                 except OSError:
